@@ -545,12 +545,14 @@ class TCPTransport(Transport):
         :type node: Node
         """
 
-        conn = self._connections.pop(node, None)
+        conn = self._connections.get(node, None)
         if conn is not None:
             # Calling conn.disconnect() immediately triggers the onDisconnected callback if the connection isn't already disconnected, so this is necessary to prevent the automatic reconnect.
+            # The connection stays in the table until then: the callback has to find the node it belongs to, so that the disconnect is reported.
             self._preventConnectNodes.add(node)
             conn.disconnect()
             self._preventConnectNodes.remove(node)
+            self._connections.pop(node, None)
         if isinstance(node, TCPNode):
             self._nodes.discard(node)
             self._nodeAddrToNode.pop(node.address, None)
